@@ -1,5 +1,6 @@
 import GmQuic.Drv.Core
 import GmQuic.Model.Pn
+import GmQuic.Model.SentJournal
 /-! Line driver for C07: `C07pn` (packet-number codec, exact), `C07r` (receiver `decode_pn`). -/
 namespace GmQuic.Drv.C07
 open GmQuic.Drv GmQuic.Pn
@@ -67,6 +68,74 @@ def stepPn (s : Unit) (op : List String) : Unit × String :=
 
 def modelPn : Model Unit := { init := (), step := exact stepPn }
 
-def entries : List (String × IO UInt32) := [("C07pn", runModel modelPn)]
+/-! ### C07j: sent-journal life-cycle (exact, state dump included) -/
+section J
+open GmQuic.SentJournal
+
+def recStr : Rec → String
+  | .skipped => "S"
+  | .flighting n _ _ => s!"F{n}"
+  | .retrans n _ => s!"R{n}"
+  | .acked n => s!"A{n}"
+
+def dumpJ (s : State) : String :=
+  let recs := if s.j.recs.isEmpty then "-" else ",".intercalate (s.j.recs.map recStr)
+  let p := if s.poisoned.isSome then "POISONED " else ""
+  s!"{p}off={s.j.offset} recs={recs} q={s.j.queueLen} la={s.j.la}"
+
+def pnObs (s : State) : String :=
+  match guardPn s with
+  | some (pn, .ok e) => s!"pn={pn} enc={showPn e}"
+  | some (_, .panic st) => siteStr st
+  | none => "NOGUARD"
+
+def poisonStr : Poison → String
+  | .pnOverflow => "PANIC:pnoverflow"
+  | .trivialAssert => "PANIC:assert"
+  | .drain => "PANIC:drain"
+
+/-- observation of a build-like op: `built <dump>` or the panic. -/
+def builtObs (s' : State) (withDump : Bool) : String :=
+  match s'.poisoned with
+  | some p => if withDump then s!"{poisonStr p} {dumpJ s'}" else poisonStr p
+  | none => s!"built {dumpJ s'}"
+
+def stepJ (s : State) (op : List String) : State × String :=
+  match op with
+  | ["begin"] => let s' := step s .begin; (s', pnObs s')
+  | ["pn"] => (step s .pn, pnObs s)
+  | ["frame"] => (step s .frame, "ok")
+  | ["trivial"] => (step s .trivial, "ok")
+  | ["build", a, b] =>
+    match a.toNat?, b.toNat? with
+    | some rt, some et => let s' := step s (.build rt et); (s', builtObs s' false)
+    | _, _ => (s, "BAD build args")
+  | ["build_trivial"] => let s' := step s .buildTrivial; (s', builtObs s' true)
+  | ["abandon"] => let s' := step s .abandon; (s', s!"dropped {dumpJ s'}")
+  | ["acklargest", a] =>
+    match a.toNat? with
+    | some n =>
+      let s' := step s (.ackLargest n)
+      (s', s!"{if updateLargestOk s.j n then "ok" else "err"} {dumpJ s'}")
+    | none => (s, "BAD acklargest args")
+  | ["rotate"] => let s' := step s .rotate; (s', dumpJ s')
+  | ["acked", a] =>
+    match a.toNat? with
+    | some pn => let s' := step s (.acked pn); (s', s!"n={(touch s.j pn Rec.beAcked).2} {dumpJ s'}")
+    | none => (s, "BAD acked args")
+  | ["lost", a] =>
+    match a.toNat? with
+    | some pn => let s' := step s (.lost pn); (s', s!"n={(touch s.j pn Rec.maybeLost).2} {dumpJ s'}")
+    | none => (s, "BAD lost args")
+  | ["tick", a] =>
+    match a.toNat? with
+    | some ms => (step s (.tick ms), "ok")
+    | none => (s, "BAD tick args")
+  | _ => (s, "BAD op")
+
+def modelJ : Model State := { init := SentJournal.init, step := exact stepJ }
+end J
+
+def entries : List (String × IO UInt32) := [("C07pn", runModel modelPn), ("C07j", runModel modelJ)]
 
 end GmQuic.Drv.C07
